@@ -458,7 +458,7 @@ def multi_instance(r, geom, bid, cfg, n_inst=2):
     (compound names '1a', ... in traces). Same data dir with distinct keys, or distinct dirs."""
     g = GEOM[geom]
     ids = IdGen()
-    layout = r.choice(["keys", "keys", "dirs", "mixed", "samekey", "samebase"])
+    layout = r.choice(["keys", "keys", "dirs", "mixed", "samekey", "samebase", "nested"])
     insts = []
     # key pools: ordinary keys, keys differing only in kept punctuation, and keys that consist only of
     # replaced characters (they fall back to a hashed directory name and must still be distinct)
@@ -471,6 +471,11 @@ def multi_instance(r, geom, bid, cfg, n_inst=2):
             insts.append({"dir": "d0", "key": pool[i % len(pool)] if n_inst <= len(pool) else "k%d" % i})
         elif layout == "dirs":
             insts.append({"dir": "d%d" % i, "key": None})
+        elif layout == "nested":
+            # an unkeyed instance and keyed instances in the SAME data directory: the keyed roots are
+            # subdirectories of the unkeyed root; all-digit keys look like WAL file names there
+            insts.append({"dir": "d0", "key": None} if i == 0 else
+                         {"dir": "d0", "key": r.choice(["18446744073709551615", "9999999999999999", "7", "k%d" % i])})
         elif layout == "samekey":
             # the same key under different data directories: the instance roots share their last path component
             insts.append({"dir": "d%d" % i, "key": pool[0]})
